@@ -18,13 +18,29 @@ def main(c):
     vlib.run_shards(c, exe, shards, env=env, cpu_limit=3000, timeout=3600, what='decoder')
     for f in FAMILIES:
         c.count('families_run')
+    # coverage-guided stage: the same family code, one iteration per input, parameters from a 24-bit seed in the input prefix
+    import shutil
+    base = vlib.scratch_dir('c08')
+    try:
+        fz = vlib.build_driver('fz_decoders', 'fuzz')
+        cdir = os.path.join(base, 'corpus'); os.makedirs(cdir)
+        r = vlib.run([exe, 'seeds', cdir], env=env, cpu_limit=600)
+        nseeds = len(os.listdir(cdir))
+        c.count('libfuzzer_seed_units', nseeds)
+        execd, unresolved = vlib.run_libfuzzer(c, fz, base, cdir, 3000000 if thorough else 60000, 48 if thorough else 16, 8192, env=env, seed=c.seed * 11 + 3)
+        c.count('libfuzzer_new_corpus_units', len(os.listdir(cdir)) - nseeds)
+        for ap, kind in unresolved:
+            c.fail_harness('libFuzzer artifact %s did not reproduce in isolation' % os.path.basename(ap))
+    finally:
+        shutil.rmtree(base, ignore_errors=True)
     c.rule = ('per decoder family an in-process loop calls the internal entry points (Thrift FileMetaData/PageHeader parsers, RLE hybrid one-shot/levels/prefixed/streaming, bit unpacking, PLAIN for 8 types, '
               'DELTA_BINARY_PACKED, DELTA_LENGTH/DELTA_BYTE_ARRAY, BYTE_STREAM_SPLIT, dictionary index decoding, Snappy/LZ4/GZIP/ZSTD decompression) with input in an exact-size heap block and output in an '
               'exact-capacity heap block; inputs are mutations of valid encodings, hostile grammar-built streams and raw random bytes, crossed with bit widths 0..255, counts and capacities; a success return must '
-              'not report more than the capacity / input size; LSan recoverable leak checks every 20 000 iterations and at exit. distinct = hash(input, parameters)')
+              'not report more than the capacity / input size; LSan recoverable leak checks every 20 000 iterations and at exit. Stage 2: a clang libFuzzer build of the same family code (drivers/fz_decoders.c; input = family byte + 24-bit '
+              'parameter seed + payload) explores with coverage feedback from the valid encodings the families build; its artifacts are re-run one per process and classified. distinct = hash(input, parameters)')
     c.assumptions = ['UBSan shift/overflow/alignment reports are advisory (counted, not violations); bounds/null/pointer-overflow are fatal', 'termination is bounded by a CPU-time watchdog per shard',
                      'allocations above 256 MiB fail (allocator_may_return_null) as on a constrained machine']
-    c.require('ok_returns'); c.require('error_returns'); c.require('families_run', 12)
+    c.require('ok_returns'); c.require('error_returns'); c.require('families_run', 12); c.require('libfuzzer_executions', 500000); c.require('libfuzzer_seed_units', 500)
 
 
 if __name__ == '__main__':
